@@ -238,6 +238,7 @@ HEADER = ("(* GENERATED on every run by vlib/translate.py from the current sourc
 #   `/` is Q division: a ZeroDivisionError is not modelled (x / 0 = 0 in Q); the bridges state the divisor non-zero.
 #   select   "loop_after_yield": the method is a process body `while True: yield <wait>; <statements>`; the statements
 #            run at each resumption are translated (anything else in the method: Unsupported)
+#   ignore_stmts [python statement]   whole statements dropped (a debug block `if self.debug: ...` that only prints)
 #   draws    [(python expression, parameter, type, constructor)]
 #                                  `name = <expression>` consuming an outside value (random.uniform(0, 1)): the value
 #                                  is the parameter, the constructor is appended to the effects; at most once per path
@@ -305,6 +306,13 @@ def _atomic(term):
     return bool(re.fullmatch(r"[A-Za-z_][A-Za-z0-9_']*|\([A-Za-z_][A-Za-z0-9_']* s\)|\(-?[0-9]+\)%Z|\(-?[0-9]+ # [0-9]+\)", term))
 
 
+def _peep(text):
+    """`let x := T in x`  ->  T"""
+    import re
+    m = re.fullmatch(r"let ([A-Za-z_][A-Za-z0-9_']*) := (.*) in\n\1", text, flags=re.S)
+    return m.group(2) if m and "\n" not in m.group(2) else text
+
+
 def _ind(text, n):
     """indent every line of text but the first by n spaces"""
     return text.replace("\n", "\n" + " " * n)
@@ -316,9 +324,10 @@ def _is_none_const(e):
 
 class FnSpec:
     def __init__(self, path, cls, method, name, reads=(), effects=(), draws=(), ret="unit", ignore_calls=("print", "dprint"),
-                 select=None, stateops=(), bindings=(), inline=()):
+                 select=None, stateops=(), bindings=(), inline=(), ignore_stmts=()):
         self.path, self.cls, self.method, self.name, self.select = path, cls, method, name, select
         self.stateops, self.bindings, self.inline = list(stateops), list(bindings), list(inline)
+        self.ignore_stmts = list(ignore_stmts)
         self.reads = [tuple(r) + (("",) if len(r) == 3 else ()) for r in reads]
         self.effects = [tuple(e) + (((),) if len(e) == 3 else ()) for e in effects]
         self.draws, self.ret, self.ignore_calls = list(draws), ret, set(ignore_calls)
@@ -338,6 +347,7 @@ class FxTr:
         self.effects = [(_parse_stmt(src), con, tys, keeps) for (src, con, tys, keeps) in spec.effects]
         self.draws = [(ast.dump(_parse_expr(src)), p, ty, con) for (src, p, ty, con) in spec.draws]
         self.volatile = {p for (_, p, _, flag) in spec.reads if flag == "volatile"}
+        self.ignored = [_parse_stmt(src) for src in spec.ignore_stmts]
         self.stateops = [(_parse_stmt(src), field, param) for (src, field, param) in spec.stateops]
         self.bindings = [(_parse_stmt(src), local, param, ty) for (src, local, param, ty) in spec.bindings]
         self.counters = {}
@@ -428,12 +438,9 @@ class FxTr:
                 return env["vars"][("local", e.id)]
             raise Unsupported(f"name {e.id} (not a local assigned on every path, not a listed observation)")
         if isinstance(e, ast.Call) and isinstance(e.func, ast.Name) and e.func.id == "len" and len(e.args) == 1 and not e.keywords:
-            d = ast.dump(e.args[0])
-            if d in self.len_reads:
-                p, _ = self.len_reads[d]
-                if p in env["stale"]:
-                    raise Unsupported(f"observation {p} is read after an effect that may have changed it")
-                return V(p, "Z")
+            rd = self.read(e.args[0], env)
+            if rd is not None and rd[1] == "len":
+                return V(rd[0], "Z")
             raise Unsupported("len() of an expression that is not a listed observation")
         if isinstance(e, ast.BinOp):
             if isinstance(e.op, ast.Pow):
@@ -538,13 +545,9 @@ class FxTr:
             c = self.cond(e.operand, env)
             return {"true": "false", "false": "true"}.get(c, f"(negb {c})")
         # truthiness of a value
-        d = ast.dump(e)
-        if d in self.len_reads:
-            p, _ = self.len_reads[d]
-            if p in env["stale"]:
-                raise Unsupported(f"observation {p} is read after an effect that may have changed it")
-            return f"(negb (Z.eqb {p} 0))"
         rd = self.read(e, env)
+        if rd is not None and rd[1] == "len":
+            return f"(negb (Z.eqb {rd[0]} 0))"
         if rd is not None and rd[1] == "optobj":
             return rd[0]
         if rd is not None and rd[1] in ("optZ", "optQ"):
@@ -634,6 +637,8 @@ class FxTr:
                 raise Unsupported("a path ends without `return <bool>`")
             return k(env, None)
         s, rest = stmts[0], stmts[1:]
+        if any(_match(pat, s, {}) for pat in self.ignored):  # a listed debug-output statement, dropped as a whole
+            return self.block(rest, env, k)
         for (pat, field, param) in self.stateops:        # a listed statement that transforms one state field
             if _match(pat, s, {}):
                 cur = env["vars"][("self", field)]
@@ -840,7 +845,7 @@ class FxTr:
                 self.counters = dict(saved)
                 out_env = self.copy(env)
             else:
-                rendered = [(h, self.block(body, e, tup)) for (h, e, body) in arms]
+                rendered = [(h, _peep(self.block(body, e, tup))) for (h, e, body) in arms]
                 out_env = self.copy(env)
                 names = []
                 for key in changed:
